@@ -1266,6 +1266,9 @@ def check_read_region(obs, m, r, line_no):
             if key == 'range':
                 import astropy.units as u
                 want_v = [u.Quantity(a, b) for a, b in want_v]
+                # a default from a `global` line is read like the same key given inline: as quantities, not as the raw text
+                obs.check(all(isinstance(x, u.Quantity) for x in v), 'read-meta-value:range-not-quantities',
+                          f'{ctx}: range={v!r} holds {[type(x).__name__ for x in v]} (an inline range= gives Quantity objects)', 'read-meta')
             obs.check(same_norm(key, want_v, v), f'read-meta-value:{key}', f'{ctx}: {key}={v!r}, expected {m["meta"][key]!r}',
                       'read-meta')
         else:
